@@ -261,6 +261,47 @@ Section HM5.
     exists m'. split; [reflexivity|]. split; [assumption|]. exact A.
   Qed.
 
+
+  (* ---- next(m) / next(m, k): the binding that follows k's binding in iteration order *)
+  Lemma scan_head : forall rest c,
+    match hm_scan K V rest c with
+    | Some (_, nd) => Some (nkey nd, nval nd)
+    | None => None
+    end = nth_error (abs_of rest) 0.
+  Proof.
+    intros rest c. pose proof (scan_spec rest c) as SS. destruct (hm_scan K V rest c) as [[i nd]|].
+    - destruct SS as (_ & _ & _ & _ & ->). reflexivity.
+    - rewrite SS. reflexivity.
+  Qed.
+
+  Theorem hm_next_ok : forall m, hm_inv m ->
+    hm_next K V keqb khash None m = Ok (nth_error (hm_abs m) 0) /\
+    forall k, match al_find k (hm_abs m) with
+              | None => hm_next K V keqb khash (Some k) m = Trap TrapInvalidKey
+              | Some kv => exists p, nth_error (hm_abs m) p = Some kv /\
+                                     hm_next K V keqb khash (Some k) m = Ok (nth_error (hm_abs m) (S p))
+              end.
+  Proof.
+    intros m (ch & fl & I). split.
+    - unfold hm_next. cbn [rbind skipn]. rewrite scan_head. reflexivity.
+    - intros k. unfold hm_next.
+      destruct (Nat.eq_dec (length (hbuckets m)) 0) as [E|E].
+      + rewrite hm_find_empty by assumption. cbn [rbind fst]. rewrite (abs_empty K V keqb khash _ _ _ I E). reflexivity.
+      + destruct (hm_find_spec K V keqb khash m ch fl k I ltac:(lia)) as (Hb & ->). cbn [rbind fst].
+        pose proof (find_abs K V keqb khash keqb_sym keqb_trans hash_coh m ch fl k I ltac:(lia)) as FA. cbn zeta in FA.
+        destruct (find_in K V keqb (hnodes m) k (ch (hashmod (khash k) (length (hbuckets m)))) None) as [[i|] p]; cbn [fst].
+        * destruct FA as (nd & l1 & l2 & Hn & F & Q & -> & _). cbn [rbind].
+          exists (length (abs_of (firstn i (hnodes m)))).
+          pose proof (abs_split K V (hnodes m) i nd Hn) as SP. unfold abs1 in SP. rewrite F in SP.
+          unfold ProofsHM2.hm_abs. rewrite SP. split.
+          { rewrite nthe_app, Nat.ltb_irrefl, Nat.sub_diag. reflexivity. }
+          { rewrite scan_head. f_equal. rewrite nthe_app.
+            destruct (Nat.ltb_spec (S (length (abs_of (firstn i (hnodes m))))) (length (abs_of (firstn i (hnodes m))))); [lia|].
+            replace (S (length (abs_of (firstn i (hnodes m)))) - length (abs_of (firstn i (hnodes m)))) with 1 by lia.
+            reflexivity. }
+        * destruct FA as (-> & _). reflexivity.
+  Qed.
+
   (* ---- one step against the association-list specification *)
   Definition hm_R (m : hmap) (al : list (K * V)) : Prop :=
     hm_inv m /\ keys_nodup al /\ al_same (hm_abs m) al.
